@@ -98,7 +98,7 @@ pub fn run(eng: &Engine) {
     eng.set_rule("compressor output (both levels, reused compressor, inputs weighted to incompressible / nearly incompressible data, the boundary-seeking family and exact multiples of 128 KiB) parsed by the independent strict frame walker: exactly one frame, header fields consistent, window >= every offset and >= 128 KiB, every block <= 128 KiB stored and regenerated, one last block and it is final, offsets within data produced, sections self-consistent, bit streams end exactly, checksum correct, nothing after; size <= input + 6 + 3*max(1,ceil(n/128K)) + 3*[n positive multiple of 128K] + 4; compressed blocks strictly smaller than their data; non-trivial = >= 1 block where the Fastest level had to choose between raw and compressed; distinct by frame hash; evaluations count frames");
     let _ = data_strategy;
     let tier = eng.tier;
-    let n = eng.tier.pick(3_000, 80_000);
+    let n = eng.tier.pick(20_000, 300_000);
     eng.run_stage("frames", n, || case_strategy(tier), check);
 }
 
